@@ -98,7 +98,11 @@ def _run_case(case):
             if scrolled_once:
                 res.nontrivial = True
                 res.label("render_after_scroll")
-            ret, e = call(lambda: win.render_to_terminal(array, tuple(cur)))
+            form = (step + n) % 4
+            if form == 1 and not case.get("reuse"):
+                array = tuple(array)  # any sequence of lines
+            ret, e = call(lambda: win.render_to_terminal(array, tuple(cur)) if form in (0, 1) else win.render_to_terminal(array, cursor_pos=tuple(cur))
+                          if form == 2 else win.render_to_terminal(array=array, cursor_pos=list(cur)))
             ctx = dict(step=step, top=top, n=n, case=case)
             if e is not None:
                 res.viol("render_raised", error=exc_str(e), **ctx)
